@@ -456,3 +456,81 @@ func c08DappElectorate(r *Rec) {
 		}
 	}
 }
+
+// c08LongAddressCarriers: the global electorate with an actor whose address is longer than 20 bytes and begins with the 20
+// bytes of another voter's address (module-derived and multisig-style addresses are 32 bytes long): two actors, two eligible
+// voters. One vote of four carriers at the default quorum: not reached.
+func c08LongAddressCarriers(r *Rec) {
+	label := "two eligible voters whose addresses share their first 20 bytes"
+	r.Mark(label)
+	w := NewWorld(WorldOpts{NAcc: 7, NVal: 1, SudoAccs: []int{6}})
+	gk := w.app.CustomGovKeeper
+	gms := govkeeper.NewMsgServerImpl(gk)
+	perm := govtypes.PermVoteSetNetworkPropertyProposal
+	long := sdk.AccAddress(append(append([]byte{}, w.addrs[1]...), []byte("twelve_bytes")...))
+	var pid uint64
+	carriers := 0
+	quorum := ""
+	setupErr := ""
+	br := w.Block(nil, BlockOpts{Dt: 6 * time.Second, Mid: func(ctx sdk.Context) {
+		for _, a := range []sdk.AccAddress{w.addrs[1], w.addrs[2], long} {
+			actor, ok := gk.GetNetworkActorByAddress(ctx, a)
+			if !ok {
+				actor = govtypes.NewDefaultActor(a)
+			}
+			if err := gk.AddWhitelistPermission(ctx, actor, perm); err != nil {
+				setupErr = err.Error()
+				return
+			}
+		}
+		carriers = carriersByRule(ctx, gk, perm, append(append([]sdk.AccAddress{}, w.addrs...), long))
+		quorum = gk.GetNetworkProperties(ctx).VoteQuorum.String()
+		cur, _ := gk.GetNetworkProperty(ctx, govtypes.MinTxFee)
+		m, err := govtypes.NewMsgSubmitProposal(w.addrs[6], "t", "d", govtypes.NewSetNetworkPropertyProposal(govtypes.MinTxFee, govtypes.NetworkPropertyValue{Value: cur.Value + 5}))
+		if err != nil {
+			setupErr = err.Error()
+			return
+		}
+		if err := withCache(ctx, func(cc sdk.Context) error {
+			res, e := gms.SubmitProposal(sdk.WrapSDKContext(cc), m)
+			if e == nil {
+				pid = res.ProposalID
+			}
+			return e
+		}); err != nil {
+			setupErr = err.Error()
+			return
+		}
+		if err := withCache(ctx, func(cc sdk.Context) error {
+			_, e := gms.VoteProposal(sdk.WrapSDKContext(cc), govtypes.NewMsgVoteProposal(pid, w.addrs[2], govtypes.OptionYes, sdk.ZeroDec()))
+			return e
+		}); err != nil {
+			setupErr = "vote: " + err.Error()
+		}
+	}})
+	if br.Panicked != nil || setupErr != "" || pid == 0 {
+		r.Count("long-address-carriers:setup-failed")
+		r.Notes = append(r.Notes, label+": set-up failed: "+setupErr+fmt.Sprint(br.Panicked))
+		return
+	}
+	w.ApplyUpdates(br.Updates)
+	result := govtypes.Pending
+	for b := 0; b < 40 && result == govtypes.Pending; b++ {
+		br := w.Block(nil, BlockOpts{Dt: 60 * time.Second})
+		if br.Panicked != nil {
+			r.Count("long-address-carriers:block-panicked")
+			return
+		}
+		w.ApplyUpdates(br.Updates)
+		if p, ok := gk.GetProposal(w.ReadCtx(), pid); ok {
+			result = p.Result
+		}
+	}
+	var accs []string
+	for i := 0; i < carriers; i++ {
+		accs = append(accs, fmt.Sprint(i))
+	}
+	r.Op(fmt.Sprintf("gov local-tally q=%s accs=%s role=- y=1 n=0 a=0 v=0 o=0", quorum, strings.Join(accs, ",")), resName(result))
+	r.Count(fmt.Sprintf("long-address-carriers:%d-carriers:%s", carriers, resName(result)))
+	r.Case(label, true)
+}
